@@ -582,46 +582,67 @@ def must_checks(C, P):
         n = sum(len(agg_positions(x, 'ArxmlParserError', var)) for x in P.with_closures(pc))
         C.check(n >= 1, 'C08-MUST-checks', 'parse_character_data|reports:%s' % var, 'parse_character_data no longer reports %s' % var)
 
-    # unescape_string: every push of '&' that is not the &amp; arm is preceded (same iteration) by optional_error
+    # unescape_string: a raw '&' is put into the result only (a) for the entity &amp; or (b) after the malformed entity was reported in
+    # the same iteration.  Stated per push site (not by counting arms): a push of the constant '&' lies in the blocks that only the true
+    # edge of starts_with("&amp;") reaches, or an optional_error call dominates it and reaches it without passing the loop header.
     us = P.get('ArxmlParser::unescape_string')
     oe = [pos for pos, t in us.calls_to(r'optional_error$')]
-    C.check(len(oe) == 3, 'C08-MUST-checks', 'unescape_string|three-failure-arms', 'expected 3 optional_error(InvalidXmlEntity) arms in unescape_string, found %d' % len(oe))
+    C.check(len(oe) >= 1 and len(agg_positions(us, 'ArxmlParserError', 'InvalidXmlEntity')) >= 1, 'C08-MUST-checks', 'unescape_string|reports-InvalidXmlEntity', 'unescape_string no longer reports a malformed entity through optional_error(InvalidXmlEntity)')
     C.check(len(agg_positions(us, 'ArxmlParserError', 'InvalidXmlEntity')) == len(oe), 'C08-MUST-checks', 'unescape_string|failure-arms-report-InvalidXmlEntity', 'a failure arm reports something else')
+    from c01 import _str_const, _unq, _dominated
+    amp_regions = set()
+    for pos, t in us.iter_calls():
+        if call_matches(t, r'<impl str>::starts_with$|str>::starts_with$') and len(t['args']) > 1 and _unq(_str_const(us, t['args'][1])) == '&amp;':
+            from flow import switch_edges_on_call_result as _sw
+            sw_ = _sw(us, pos)
+            if sw_:
+                amp_regions |= _dominated(us, sw_[2])
     amp = []
     for pos, t in us.calls_to(r'String::push$'):
         if len(t['args']) > 1 and const_val(t['args'][1]) == "'&'":
             amp.append(pos)
+    # a tuple ('&', n) selected for the &amp; entity and pushed later as a variable is not a raw ampersand
     loops = us.natural_loops()
     heads = {(h, 0) for h, _ in loops}
-    n_guarded = 0
+    bad = []
     for p in amp:
-        guarded = any(us.pos_dominates(o, p) and must_pass(us, o, [p], set(), include_start=False) is False and
-                      not must_pass(us, o, [p], heads, include_start=False) is True for o in oe)
-        # simpler formulation: some optional_error dominates p and reaches p without passing a loop header
-        guarded = False
-        for o in oe:
-            if us.pos_dominates(o, p):
-                r = us.reach_from(o, avoid=heads)
-                if p in r:
-                    guarded = True
-        if guarded:
-            n_guarded += 1
-    C.check(len(amp) == 4 and n_guarded == 3, 'C08-MUST-checks', 'unescape_string|raw-ampersand-only-after-report',
-            "expected 4 pushes of '&' (1 for &amp;, 3 after a reported malformed entity); found %d, %d guarded" % (len(amp), n_guarded),
-            sample={'fn': 'unescape_string', 'pushes_of_amp': len(amp), 'after_report': n_guarded})
+        if p[0] in amp_regions:
+            continue
+        if any(us.pos_dominates(o, p) and p in us.reach_from(o, avoid=heads) for o in oe):
+            continue
+        bad.append(p)
+    C.check(not bad and bool(amp_regions or amp), 'C08-MUST-checks', 'unescape_string|raw-ampersand-only-after-report',
+            "unescape_string pushes a raw '&' outside the &amp; arm without having reported the malformed entity in the same iteration", us.where(bad[0]) if bad else '',
+            sample={'fn': 'unescape_string', 'pushes_of_amp': len(amp), 'unguarded': len(bad)})
 
     # numeric character references: std's integer parsers also accept a leading '+', which XML does not; the digits are therefore tested
     # by form (all ascii (hex) digits) on the way to every conversion
     from pairing import guarded_by_true as _gbt
-    convs = [pos for pos, t in us.iter_calls() if call_matches(t, r'from_str_radix$|FromStr>?::from_str$|<impl str>::parse$')]
-    forms = [pos for pos, t in us.iter_calls() if call_matches(t, r'Iterator>?::all$')]
     nconv = 0
-    for cp in convs:
-        nconv += 1
-        okf = any(_gbt(us, cp, fp) for fp in forms)
-        C.check(okf, 'C08-MUST-checks', 'unescape_string|character-reference-digits-tested-by-form', 'a numeric character reference is converted with a std integer parser without a test that it consists of digits only: "&#x+41;" / "&#+65;" are accepted as "A" by strict loading although they are malformed',
-                us.where(cp), sample={'fn': 'unescape_string', 'conversion_guarded_by': 'bytes().all(is_ascii_(hex)digit)'} if nconv == 1 else None)
-    C.check(nconv >= 2, 'C08-MUST-checks', 'unescape_string|two-numeric-reference-forms', 'expected a hexadecimal and a decimal character-reference conversion in unescape_string, found %d' % nconv)
+    for ux in P.with_closures(us):
+        convs = [pos for pos, t in ux.iter_calls() if call_matches(t, r'from_str_radix$|FromStr>?::from_str$|<impl str>::parse$')]
+        forms = [pos for pos, t in ux.iter_calls() if call_matches(t, r'Iterator>?::all$')]
+        for cp in convs:
+            nconv += 1
+            okf = any(_gbt(ux, cp, fp) or _gbt(ux, cp, fp, negate=True) and False for fp in forms)
+            if not okf:
+                # `if !digits.all(..) { return None }`: the conversion is only reachable over the FALSE edge of the negated test, which is the
+                # true edge of all(): accept a Not between the call and the switch
+                from flow import forward_taint as _ft
+                for fp in forms:
+                    tf = ux.blocks[fp[0]]['term']
+                    tl = _ft(ux, {tf['dst']['l']}, through_refs=False)
+                    for q3, s3 in ux.iter_stmts():
+                        if s3['k'] == 'assign' and s3['rv']['k'] == 'un' and s3['rv'].get('op') == 'Not' and is_local_op(s3['rv']['o']) and s3['rv']['o']['l'] in tl:
+                            nl = _ft(ux, {s3['dst']['l']}, through_refs=False)
+                            for q4, t4 in ux.iter_terms():
+                                if t4['k'] == 'switch' and is_local_op(t4['d']) and t4['d']['l'] in nl and set(dict(t4['ts']).keys()) == {'0'}:
+                                    # needed edge must be the FALSE edge of the negation
+                                    if must_pass(ux, (0, 0), [cp], through=(), avoid_edges={(q4[0], dict(t4['ts'])['0'])}):
+                                        okf = True
+            C.check(okf, 'C08-MUST-checks', 'unescape_string|character-reference-digits-tested-by-form', 'a numeric character reference is converted with a std integer parser without a test that it consists of digits only: "&#x+41;" / "&#+65;" are accepted as "A" by strict loading although they are malformed',
+                    ux.where(cp), sample={'fn': 'unescape_string', 'conversion_guarded_by': 'bytes().all(is_ascii_(hex)digit)'} if nconv == 1 else None)
+    C.check(nconv >= 1, 'C08-MUST-checks', 'unescape_string|numeric-reference-conversion', 'no character-reference conversion found in unescape_string (radix coverage is decided by C01-SIB-escape reader-numeric-references)')
 
     # element-level reports exist
     fe = P.get('ArxmlParser::find_element_in_spec_checked')
